@@ -88,3 +88,52 @@ Section Main.
                      V vinterp silence identity amp P pinterp panned cap psize' land' evs w0 w0' HP).
   Qed.
 End Main.
+
+(** ** a decision procedure for the rate hypothesis (used by the examples, and usable on any concrete history) *)
+Section RatesB.
+  Context {T : Type} {NT : Num T} {ND : NumDur T}.
+  Variable powf : T -> T -> T.
+  Variables V P : Type.
+
+  Definition rate_nonnegb (r : T) : bool := negb (nsignneg r) && negb (nisnan r) && negb (nltb r n0).
+  Fixpoint allk (f : Z -> bool) (k : nat) (i : Z) : bool :=
+    match k with O => true | S k' => f i && allk f k' (i + 1) end.
+  Fixpoint rates_okb (rate : param T T) (evs : list (event T V P)) : bool :=
+    match evs with
+    | [] => true
+    | EvDecode :: r => rates_okb rate r
+    | EvStart c :: r => rates_okb (match k_rate c with Some (v, tw) => param_set rate v tw | None => rate end) r
+    | EvProcess len dt i :: r =>
+        match param_update powf T lerp rate (nmul dt (nofZ len)) i with
+        | Ok (rate', _) =>
+            negb (nsignneg (p_raw rate')) && allk (fun k => rate_nonnegb (rate_at rate' k len)) (Z.to_nat len) 0
+            && rates_okb rate' r
+        | _ => true
+        end
+    end.
+
+  Lemma rate_nonnegb_sound : forall r, rate_nonnegb r = true -> rate_nonneg r.
+  Proof.
+    intros r H. unfold rate_nonnegb in H. apply andb_prop in H. destruct H as [H H3].
+    apply andb_prop in H. destruct H as [H1 H2]. unfold rate_nonneg.
+    destruct (nsignneg r), (nisnan r), (nltb r n0); try discriminate. repeat split.
+  Qed.
+  Lemma allk_sound : forall f k i, allk f k i = true -> forall j, i <= j < i + Z.of_nat k -> f j = true.
+  Proof.
+    induction k as [|k IH]; intros i H j Hj; [lia|].
+    cbn [allk] in H. apply andb_prop in H. destruct H as [H1 H2].
+    destruct (Z.eq_dec j i) as [->|Hne]; [exact H1|]. apply (IH (i + 1) H2). lia.
+  Qed.
+  Lemma rates_okb_sound : forall evs rate, rates_okb rate evs = true -> rates_ok powf V P rate evs.
+  Proof.
+    induction evs as [|e evs IH]; intros rate H; [exact I|].
+    destruct e as [|c|len dt i]; cbn [rates_okb rates_ok] in *.
+    - apply IH; exact H.
+    - apply IH; exact H.
+    - destruct (param_update powf T lerp rate (nmul dt (nofZ len)) i) as [[rate' f]| |]; try exact I.
+      apply andb_prop in H. destruct H as [H H3]. apply andb_prop in H. destruct H as [H1 H2].
+      split; [destruct (nsignneg (p_raw rate')); [discriminate | reflexivity]|].
+      split; [|apply IH; exact H3].
+      intros k Hk. apply rate_nonnegb_sound. apply (allk_sound _ _ _ H2). lia.
+  Qed.
+End RatesB.
